@@ -654,12 +654,110 @@ theorem deliveries_only_on_removal (ops : List Op) (op : Op) (caller : Nat) (o :
     simp [step, hf, terminate] at hx
     exact (mem_removeQ.1 hx).2
 
-/-- **A value or a specific error.** A caller observes a dropped channel (`closed`) only when some caller of
-the same query dropped its receiver; with all receivers alive every outcome is a value or a specific error. -/
+/-- A caller observes a dropped channel (`closed`) only when some caller of the same query dropped its receiver
+(the statement that held before the repair of the sender loops; with `Gen.sendServesAllCallers` it is subsumed by
+`value_or_specific_error` below: not even then). -/
 theorem closed_only_after_hangup (ops : List Op) (op : Op) (caller : Nat)
     (h : (caller, Outcome.closed) ∈ (step (run ops) op).2.deliveries) :
     ∃ q ∈ (run ops).pending, caller ∈ q.senders ∧ ∃ c' ∈ q.senders, c' ∈ (run ops).hung :=
   step_closed h
+
+/-- **Full clause "a value or a specific error".** Nothing a step puts on a caller's channel is a bare dropped
+channel (`closed` = `InternalMsgChannelDropped` at the caller, no value and no `GetRecordError`). -/
+def ValueOrSpecificError : Prop :=
+  ∀ (ops : List Op) (op : Op) (caller : Nat) (o : Outcome),
+    (caller, o) ∈ (step (run ops) op).2.deliveries → o ≠ .closed
+
+/-- **A value or a specific error, for all histories — hang-ups included.** The loops that answer the callers serve
+every sender (`Gen.sendServesAllCallers`, regenerated from the source: `send_to_all`); a caller that dropped its
+receiver no longer takes the callers queued behind it down with it (former finding, fixed). -/
+theorem value_or_specific_error : ValueOrSpecificError := by
+  intro ops op caller o h ho
+  subst ho
+  exact step_no_closed h
+
+theorem delivered_never_closed_aux (ops : List Op) : ∀ s : State, (∀ d ∈ s.delivered, d.2 ≠ Outcome.closed) →
+    ∀ d ∈ (ops.foldl (fun s op => (step s op).1) s).delivered, d.2 ≠ Outcome.closed := by
+  induction ops with
+  | nil => intro s h; exact h
+  | cons op ops ih =>
+    intro s h
+    simp only [List.foldl_cons]
+    apply ih
+    intro d hd
+    rw [delivered_step] at hd
+    rcases List.mem_append.1 hd with hd | hd
+    · exact h d hd
+    · intro hc
+      have : (d.1, Outcome.closed) ∈ (step s op).2.deliveries := by rw [← hc]; exact hd
+      exact step_no_closed this
+
+/-- the whole log of what callers ever received contains values and specific errors only -/
+theorem delivered_never_closed (ops : List Op) : ∀ d ∈ (run ops).delivered, d.2 ≠ Outcome.closed :=
+  delivered_never_closed_aux ops {} (by simp)
+
+/-- **One outcome each, a value or a specific error.** `one_outcome_each` with the outcome named: a caller that is
+not waiting has received exactly one entry, and that entry is not a dropped channel. -/
+theorem one_outcome_each_specific (ops : List Op) (caller : Nat) (hc : caller < (run ops).nextCaller)
+    (hl : caller ∉ (run ops).hung) (hw : ∀ q ∈ (run ops).pending, caller ∉ q.senders) :
+    ((run ops).delivered.map (·.1)).count caller = 1 ∧
+    ∃ o, (caller, o) ∈ (run ops).delivered ∧ o ≠ .closed ∧ ∀ o', (caller, o') ∈ (run ops).delivered → o' ≠ .closed := by
+  rcases one_outcome_each ops caller hc hl with ⟨⟨q, hq, hcq, _⟩, _⟩ | ⟨_, hcount⟩
+  · exact absurd hcq (hw q hq)
+  · refine ⟨hcount, ?_⟩
+    have hm : caller ∈ (run ops).delivered.map (·.1) := by
+      apply List.count_pos_iff.1; omega
+    obtain ⟨d, hd, hdc⟩ := List.mem_map.1 hm
+    refine ⟨d.2, ?_, delivered_never_closed ops d hd, ?_⟩
+    · have : d = (caller, d.2) := by rw [← hdc]
+      rw [← this]; exact hd
+    · intro o' ho'
+      exact delivered_never_closed ops (caller, o') ho'
+
+/-- **A hang-up does not starve the others.** When a terminating event arrives for a pending query, every caller
+of the query whose receiver is alive receives the query's outcome — a value or a specific error — whichever other
+callers of the same key have dropped their receivers, and wherever they stand in the queue. -/
+theorem live_callers_answered_despite_hangups (ops : List Op) (q : Query) (hq : q ∈ (run ops).pending) (op : Op)
+    (hop : op = .finished q.qid ∨ op = .notFound q.qid ∨ op = .quorumFailed q.qid ∨ op = .timeout q.qid)
+    (caller : Nat) (hc : caller ∈ q.senders) (hl : caller ∉ (run ops).hung) :
+    ∃ o, o ≠ .closed ∧ (caller, o) ∈ (step (run ops) op).2.deliveries := by
+  have inv := inv_run ops
+  have hf := findQ_of_mem inv hq
+  have key : (step (run ops) op) = terminate (run ops) q
+      (match op with | .finished _ => finishedOutcome q | .timeout _ => timeoutOutcome q | _ => .notFound) := by
+    rcases hop with h | h | h | h <;> subst h <;> simp [step, hf]
+  rw [key]
+  refine ⟨_, ?_, by simp only [terminate]; exact deliver_live hc hl⟩
+  rcases hop with h | h | h | h <;> subst h
+  · exact finishedOutcome_ne_closed q
+  · simp
+  · simp
+  · exact timeoutOutcome_ne_closed q
+
+/-- … and so does the reply that completes the quorum. -/
+theorem live_callers_answered_on_completion (ops : List Op) (q : Query) (hq : q ∈ (run ops).pending)
+    (p : Nat) (c : Content) (fk : Option Nat) (hkey : fk.getD q.key = q.key)
+    (hreach : reached (addPeer q.results c p).2 (quorumOf q.cfg) = true)
+    (caller : Nat) (hc : caller ∈ q.senders) (hl : caller ∉ (run ops).hung) :
+    (caller, completedOutcome q.cfg (addPeer q.results c p).1 c true) ∈
+      (step (run ops) (.found q.qid p c fk)).2.deliveries := by
+  have inv := inv_run ops
+  have hf := findQ_of_mem inv hq
+  have hd : (step (run ops) (.found q.qid p c fk)).2.deliveries =
+      (deliver (run ops).hung q.senders (completedOutcome q.cfg (addPeer q.results c p).1 c true)).1 := by
+    simp [step, hf, hreach, terminate, hkey, foundChecksKey]
+  rw [hd]
+  exact deliver_live hc hl
+
+-- three callers wait on one key, the middle one hangs up: the other two receive the value, the handler reports the
+-- dropped channel afterwards
+example : (step (run [.get 0 0 { quorum := .one, target := none, isReg := false },
+      .get 0 1 { quorum := .one, target := none, isReg := false },
+      .get 0 2 { quorum := .one, target := none, isReg := false }, .hangup 1])
+      (.found 0 1 (.hdr .chunk 0) none)).2.deliveries = [(0, .ok (.hdr .chunk 0)), (2, .ok (.hdr .chunk 0))] := by decide
+example : (step (run [.get 0 0 { quorum := .one, target := none, isReg := false },
+      .get 0 1 { quorum := .one, target := none, isReg := false }, .hangup 0])
+      (.finished 0)).2.ret = .chan := by decide
 
 /-- **The merge on the quorum path is the union.** The transaction set a reply-completed split hands over
 (`Merged`, `split_returns_all_or_merge`: `txUnion` of all versions, built in a `BTreeSet<Transaction>`) is sorted,
@@ -763,11 +861,13 @@ theorem merge_reg_is_union {order : List Content} {b : Nat} {s : Bool} {ops : Li
         have := (bestPad_spec h).2.1
         simp [padValid] at this
 
-/-- **Scratchpads.** A scratchpad result is one of the versions, validly signed, and no validly signed version
-has a higher counter. -/
+/-- **Scratchpads.** A scratchpad result is one of the versions, validly signed and living at the key being read
+(`padValid`: `is_valid()` and, with `Gen.splitPadChecksKey`, its own address is the record key), and no such version has
+a higher counter. -/
 theorem merge_pad_is_highest_valid {order : List Content} {o c v : Nat} {ok : Bool}
     (h : mergeSplit order = some (.pad o c v ok)) :
-    ok = true ∧ Content.pad o c v ok ∈ order ∧ ∀ x ∈ order, padValid x = true → padCount x ≤ c := by
+    ok = true ∧ Content.pad o c v ok ∈ order ∧ (∀ x ∈ order, padValid x = true → padCount x ≤ c) ∧
+      padValid (.pad o c v ok) = true := by
   unfold mergeSplit at h
   split at h
   · cases h
@@ -786,7 +886,11 @@ theorem merge_pad_is_highest_valid {order : List Content} {o c v : Nat} {ok : Bo
       | pad =>
         simp only [] at h
         obtain ⟨h1, h2, h3⟩ := bestPad_spec h
-        refine ⟨by simpa [padValid] using h2, (List.mem_filter.1 h1).1, ?_⟩
+        have hok : ok = true := by
+          have h2' := h2
+          simp only [padValid, Bool.and_eq_true] at h2'
+          exact h2'.1
+        refine ⟨hok, (List.mem_filter.1 h1).1, ?_, h2⟩
         intro x hx hxv
         have := h3 x (List.mem_filter.2 ⟨hx, by simp [padValid_is_pad hxv]⟩) hxv
         simpa [padCount] using this
@@ -863,13 +967,205 @@ theorem merge_order_independent {order order' : List Content} (hp : order.Perm o
     · rintro ⟨r, hr, h1⟩; exact ⟨r, hp.mem_iff.1 hr, h1⟩
     · rintro ⟨r, hr, h1⟩; exact ⟨r, hp.mem_iff.2 hr, h1⟩
   · intro o c v ok o' c' v' ok' h h'
-    obtain ⟨k1, m1, x1⟩ := merge_pad_is_highest_valid h
-    obtain ⟨k2, m2, x2⟩ := merge_pad_is_highest_valid h'
+    obtain ⟨k1, m1, x1, v1⟩ := merge_pad_is_highest_valid h
+    obtain ⟨k2, m2, x2, v2⟩ := merge_pad_is_highest_valid h'
     subst k1; subst k2
-    have e1 := x1 _ (hp.mem_iff.2 m2) (by simp [padValid])
-    have e2 := x2 _ (hp.mem_iff.1 m1) (by simp [padValid])
+    have e1 := x1 _ (hp.mem_iff.2 m2) v2
+    have e2 := x2 _ (hp.mem_iff.1 m1) v1
     simp only [padCount] at e1 e2
     exact ⟨by omega, rfl⟩
+
+/-! ## "Their deterministic merge, never an arbitrary pick" (full clause)
+
+A result map is a list of `(content hash, version)` entries in the `HashMap`'s own iteration order; the hashes are
+the keys of the map, hence pairwise distinct. `handle_split_record_error` visits the versions in ascending order of
+the hash (`Gen.splitVisitsInKeyOrder`, regenerated from the loop header of the function), so which kind is expected,
+which register base the others are merged into and which of several valid scratchpads with the same highest counter
+is kept are functions of the set of versions. -/
+
+/-- **Full clause.** `f` (a merge of a result map) is deterministic: two listings of one map — any two iteration
+orders of the `HashMap` — give the same result. -/
+def MergeDeterministic (f : List (Nat × Content) → Option Content) : Prop :=
+  ∀ m m' : List (Nat × Content), m.Perm m' → (m.map (·.1)).Nodup → f m = f m'
+
+/-- **The merge is deterministic**, for all result maps and all iteration orders (the code as repaired: versions
+visited in content-hash order). -/
+theorem merge_deterministic : MergeDeterministic mergeSplitMap := by
+  intro m m' hp hk
+  unfold mergeSplitMap visitOrder
+  simp only [splitVisitsInKeyOrder, if_true]
+  rw [sortByKey_eq_of_perm hp hk]
+
+/-- The merge as it was before the repair (`for (record, _) in result_map.values()`): the versions are visited in the
+map's own iteration order. -/
+def mergeSplitUnordered (m : List (Nat × Content)) : Option Content := mergeSplit (m.map (·.2))
+
+/-- **Witness (former finding, fixed: equal counters).** Two validly signed scratchpads of the key with the same, highest counter and
+different data: visited in the map's own order, the first one visited wins (`old.count() >= new.count()` keeps `old`). -/
+theorem unordered_pad_pick_witness :
+    mergeSplitUnordered [(0, .pad 0 2 0 true), (1, .pad 0 2 1 true)] = some (.pad 0 2 0 true) ∧
+    mergeSplitUnordered [(1, .pad 0 2 1 true), (0, .pad 0 2 0 true)] = some (.pad 0 2 1 true) := by decide
+
+/-- **Witness (former finding, fixed: several bases).** Two verified registers with different base registers: the first one visited
+dictates the base, the other one is dropped. -/
+theorem unordered_reg_base_witness :
+    mergeSplitUnordered [(0, .reg 0 true [1]), (1, .reg 1 true [2])] = some (.reg 0 true [1]) ∧
+    mergeSplitUnordered [(1, .reg 1 true [2]), (0, .reg 0 true [1])] = some (.reg 1 true [2]) := by decide
+
+/-- Visiting in the map's own order is *not* deterministic (both witnesses): the sort is what the clause needs. -/
+theorem not_mergeDeterministic_unordered : ¬ MergeDeterministic mergeSplitUnordered := by
+  intro h
+  have e := h [(0, .pad 0 2 0 true), (1, .pad 0 2 1 true)] [(1, .pad 0 2 1 true), (0, .pad 0 2 0 true)]
+    (List.Perm.swap _ _ _) (by decide)
+  rw [unordered_pad_pick_witness.1, unordered_pad_pick_witness.2] at e
+  cases e
+
+theorem not_mergeDeterministic_unordered_reg :
+    ¬ ∀ m m' : List (Nat × Content), m.Perm m' → (m.map (·.1)).Nodup →
+        (∀ e ∈ m, kindOf e.2 = some .reg) → mergeSplitUnordered m = mergeSplitUnordered m' := by
+  intro h
+  have e := h [(0, .reg 0 true [1]), (1, .reg 1 true [2])] [(1, .reg 1 true [2]), (0, .reg 0 true [1])]
+    (List.Perm.swap _ _ _) (by decide) (by decide)
+  rw [unordered_reg_base_witness.1, unordered_reg_base_witness.2] at e
+  cases e
+
+-- the repaired code on the two witnesses: the content hash decides, whatever the listing
+example : mergeSplitMap [(7, .pad 0 2 0 true), (3, .pad 0 2 1 true)] = some (.pad 0 2 1 true) ∧
+    mergeSplitMap [(3, .pad 0 2 1 true), (7, .pad 0 2 0 true)] = some (.pad 0 2 1 true) := by decide
+example : mergeSplitMap [(0, .reg 0 true [1]), (1, .reg 1 true [2])] = some (.reg 0 true [1]) ∧
+    mergeSplitMap [(1, .reg 1 true [2]), (0, .reg 0 true [1])] = some (.reg 0 true [1]) := by decide
+
+/-- all versions carry a decodable header of kind `k` -/
+def AllKind (k : Kind) (order : List Content) : Prop := ∀ c ∈ order, kindOf c = some k
+
+theorem mergeSplit_allKind {order : List Content} {k : Kind} (hk : AllKind k order) (hlen : 1 < order.length) :
+    mergeSplit order =
+      match k with
+      | .chunk => none
+      | .paid => none
+      | .txn => if 1 < (txUnionH order).length then some (.txs (txUnionH order)) else none
+      | .reg =>
+        match order.filter regValid with
+        | [] => none
+        | r0 :: rest =>
+          some (.reg (regBase r0) true
+            (((r0 :: rest).filter (fun r => regBase r == regBase r0)).foldl (fun acc r => unionInto acc (regOps r)) []))
+      | .pad => bestPad order := by
+  have hl : ¬ order.length ≤ 1 := by omega
+  have hsame : order.filter (fun c => kindOf c == some k) = order :=
+    List.filter_eq_self.2 (fun c hc => by simp [hk c hc])
+  match order, hk, hl, hsame with
+  | c0 :: rest, hk, hl, hsame =>
+    have h0 : kindOf c0 = some k := hk c0 (List.mem_cons_self ..)
+    unfold mergeSplit
+    simp only [hl, if_false, List.filterMap_cons, h0]
+    cases k <;> simp only [hsame] <;> rfl
+
+/-- **Partial (order-independence of the fold itself).** Whatever the order in which the versions are visited —
+i.e. also without the sort — the result is the same when all versions carry a header of one kind, the verified
+registers share one base register, and the valid scratchpad with the highest counter is unique. (The two witnesses
+above violate the last two hypotheses; versions of mixed kinds violate the first: the first decodable header
+dictates the kind.) -/
+theorem merge_order_independent_partial {order order' : List Content} {k : Kind} (hp : order.Perm order')
+    (hk : AllKind k order)
+    (hbase : ∀ r ∈ order, ∀ r' ∈ order, regValid r = true → regValid r' = true → regBase r = regBase r')
+    (hpad : ∀ x ∈ order, ∀ y ∈ order, padValid x = true → padValid y = true →
+      (∀ z ∈ order, padValid z = true → padCount z ≤ padCount x) →
+      (∀ z ∈ order, padValid z = true → padCount z ≤ padCount y) → x = y) :
+    mergeSplit order = mergeSplit order' := by
+  have hk' : AllKind k order' := fun c hc => hk c (hp.mem_iff.2 hc)
+  by_cases hlen : order.length ≤ 1
+  · have hlen' : order'.length ≤ 1 := by rw [← hp.length_eq]; exact hlen
+    unfold mergeSplit
+    simp [hlen, hlen']
+  · have h1 : 1 < order.length := by omega
+    have h1' : 1 < order'.length := by rw [← hp.length_eq]; exact h1
+    rw [mergeSplit_allKind hk h1, mergeSplit_allKind hk' h1']
+    cases k with
+    | chunk => rfl
+    | paid => rfl
+    | txn =>
+      have e : txUnionH order = txUnionH order' := by
+        apply asc_ext (asc_txUnionH _) (asc_txUnionH _)
+        intro y
+        rw [mem_txUnionH, mem_txUnionH]
+        constructor
+        · rintro ⟨l, hl, hy⟩; exact ⟨l, hp.mem_iff.1 hl, hy⟩
+        · rintro ⟨l, hl, hy⟩; exact ⟨l, hp.mem_iff.2 hl, hy⟩
+      simp only [e]
+    | reg =>
+      have hpV : (order.filter regValid).Perm (order'.filter regValid) := hp.filter _
+      simp only []
+      cases hV : order.filter regValid with
+      | nil =>
+        cases hV' : order'.filter regValid with
+        | nil => rfl
+        | cons r0' rest' =>
+          have := hpV.length_eq
+          rw [hV, hV'] at this; simp at this
+      | cons r0 rest =>
+        cases hV' : order'.filter regValid with
+        | nil =>
+          have := hpV.length_eq
+          rw [hV, hV'] at this; simp at this
+        | cons r0' rest' =>
+          simp only []
+          rw [hV, hV'] at hpV
+          have memV : ∀ r, r ∈ r0 :: rest → r ∈ order ∧ regValid r = true := by
+            intro r hr; rw [← hV] at hr; exact List.mem_filter.1 hr
+          have memV' : ∀ r, r ∈ r0' :: rest' → r ∈ order ∧ regValid r = true := by
+            intro r hr
+            have := hpV.mem_iff.2 hr
+            exact memV r this
+          have hb0 : regBase r0' = regBase r0 :=
+            hbase r0' (memV' r0' (List.mem_cons_self ..)).1 r0 (memV r0 (List.mem_cons_self ..)).1
+              (memV' r0' (List.mem_cons_self ..)).2 (memV r0 (List.mem_cons_self ..)).2
+          have hf : (r0 :: rest).filter (fun r => regBase r == regBase r0) = r0 :: rest :=
+            List.filter_eq_self.2 (fun r hr => by
+              have := hbase r (memV r hr).1 r0 (memV r0 (List.mem_cons_self ..)).1 (memV r hr).2
+                (memV r0 (List.mem_cons_self ..)).2
+              simp [this])
+          have hf' : (r0' :: rest').filter (fun r => regBase r == regBase r0') = r0' :: rest' :=
+            List.filter_eq_self.2 (fun r hr => by
+              have := hbase r (memV' r hr).1 r0' (memV' r0' (List.mem_cons_self ..)).1 (memV' r hr).2
+                (memV' r0' (List.mem_cons_self ..)).2
+              simp [this])
+          rw [hf, hf', hb0]
+          have a1 := regUnion_aux (r0 :: rest) [] (by simp [Asc])
+          have a2 := regUnion_aux (r0' :: rest') [] (by simp [Asc])
+          have e : (r0 :: rest).foldl (fun acc r => unionInto acc (regOps r)) [] =
+              (r0' :: rest').foldl (fun acc r => unionInto acc (regOps r)) [] := by
+            apply asc_ext a1.1 a2.1
+            intro y
+            rw [a1.2 y, a2.2 y]
+            constructor
+            · rintro (h | ⟨r, hr, hy⟩)
+              · exact Or.inl h
+              · exact Or.inr ⟨r, hpV.mem_iff.1 hr, hy⟩
+            · rintro (h | ⟨r, hr, hy⟩)
+              · exact Or.inl h
+              · exact Or.inr ⟨r, hpV.mem_iff.2 hr, hy⟩
+          rw [e]
+    | pad =>
+      simp only []
+      cases hb : bestPad order with
+      | none =>
+        cases hb' : bestPad order' with
+        | none => rfl
+        | some b' =>
+          obtain ⟨m', v', _⟩ := bestPad_spec hb'
+          have := bestPad_none hb b' (hp.mem_iff.2 m')
+          rw [v'] at this; cases this
+      | some b =>
+        obtain ⟨m1, v1, x1⟩ := bestPad_spec hb
+        cases hb' : bestPad order' with
+        | none =>
+          have := bestPad_none hb' b (hp.mem_iff.1 m1)
+          rw [v1] at this; cases this
+        | some b' =>
+          obtain ⟨m2, v2, x2⟩ := bestPad_spec hb'
+          have := hpad b m1 b' (hp.mem_iff.2 m2) v1 v2 x1 (fun z hz hv => x2 z (hp.mem_iff.1 hz) hv)
+          rw [this]
 
 /-! ## Non-vacuity -/
 
@@ -928,3 +1224,14 @@ end SafeNet.Props.C05
 #print axioms SafeNet.Props.C05.merge_pad_is_highest_valid
 #print axioms SafeNet.Props.C05.merge_result_kinds
 #print axioms SafeNet.Props.C05.merge_order_independent
+#print axioms SafeNet.Props.C05.value_or_specific_error
+#print axioms SafeNet.Props.C05.delivered_never_closed
+#print axioms SafeNet.Props.C05.one_outcome_each_specific
+#print axioms SafeNet.Props.C05.live_callers_answered_despite_hangups
+#print axioms SafeNet.Props.C05.live_callers_answered_on_completion
+#print axioms SafeNet.Props.C05.merge_deterministic
+#print axioms SafeNet.Props.C05.unordered_pad_pick_witness
+#print axioms SafeNet.Props.C05.unordered_reg_base_witness
+#print axioms SafeNet.Props.C05.not_mergeDeterministic_unordered
+#print axioms SafeNet.Props.C05.not_mergeDeterministic_unordered_reg
+#print axioms SafeNet.Props.C05.merge_order_independent_partial
